@@ -892,6 +892,8 @@ class Engine:
             return list(it)
         if isinstance(it, Abstract) and it.tag == "concrete_iter":
             return list(it.items)
+        if isinstance(it, PyDict):          # iterating a dict yields its keys in insertion order
+            return list(it.d.keys())
         return None
 
     def _loop_iter(self, s, st, it, lid, spec):
@@ -1486,6 +1488,29 @@ class Engine:
 
     ev_GeneratorExp = ev_ListComp
 
+    def ev_DictComp(self, e, st):
+        """{k: v for ... in <concrete iterable>}: evaluated entry by entry in iteration order (dicts keep insertion order)"""
+        if len(e.generators) != 1:
+            raise Unsupported("nested comprehension")
+        g = e.generators[0]
+        items = self._concrete_items(self.ev(g.iter, st))
+        if items is None:
+            raise Unsupported("dict comprehension over symbolic iterable")
+        out = PyDict()
+        saved = dict(st.env)
+        for item in items:
+            self.assign(g.target, item, st)
+            if all(self.decide(self.truth(self.ev(cond, st), st), st) for cond in g.ifs):
+                k = self.ev(e.key, st)
+                if is_z3(k):
+                    raise Unsupported("symbolic dict key")
+                out.d[k] = self.ev(e.value, st)
+        for k in list(st.env):
+            if k not in saved:
+                del st.env[k]
+        st.env.update(saved)
+        return out
+
     # ------------------------------------------------------------------ calls
     def ev_Call(self, e, st):
         fv = self.ev(e.func, st)
@@ -1740,6 +1765,12 @@ class Engine:
         if name == "list" and args and isinstance(args[0], SymSeq):
             v = args[0]
             return SymSeq(v.arr, v.n, list(v.over), v.wrap, v.unwrap, v.tag)
+        if name == "sorted" and len(args) == 1 and not kwargs:
+            items = self._concrete_items(args[0])
+            if items is not None and all(isinstance(x, (str, int, float)) and not isinstance(x, bool) for x in items) and len({type(x) is str for x in items}) <= 1:
+                return PyList(sorted(items))
+            if items is not None and all(isinstance(x, tuple) and x and isinstance(x[0], str) for x in items) and len({x[0] for x in items}) == len(items):
+                return PyList(sorted(items, key=lambda t: t[0]))          # (key, value) pairs with distinct string keys
         if name in ("list", "tuple"):
             if not args:
                 return PyList() if name == "list" else ()
